@@ -307,7 +307,16 @@ func (g *Gen) freshReportOp() Op {
 	plog := [][]uint64{}
 	for i := 0; i < g.R.Intn(3); i++ {
 		s := g.Shards[g.R.Intn(len(g.Shards))]
-		plog = append(plog, []uint64{s, uint64(100*int(s) + 1 + g.R.Intn(4))})
+		rid := uint64(100*int(s) + 1 + g.R.Intn(4))
+		// one log record in five belongs to a replica whose ids only look like a current one's: same low decimal digits (the
+		// ids as log lines print them, modulo 100000), another shard or another replica
+		switch g.R.Intn(10) {
+		case 0:
+			s += 100000 * uint64(1+g.R.Intn(3))
+		case 1:
+			rid += 100000 * uint64(1+g.R.Intn(3))
+		}
+		plog = append(plog, []uint64{s, rid})
 	}
 	// fields of the message the DB must not trust: the report time is the DB's tick, not the sender's
 	lt := []uint64{0, 0, 0, 0, 0, 0, 0, 0, 1, 7, 1000, 1 << 40}[g.R.Intn(12)]
